@@ -1271,7 +1271,7 @@ local function make_integral_binary_op(optypefunc, opvalfunc)
     local lval, rval, reval = lattr.value, rattr.value, nil
     if retype and lval and rval then -- compile time operation
       if retype.is_float then -- promote both to floats before if the result is a float
-        lval, rval = bn.tonumber(lval), bn.tonumber(rval)
+        lval, rval = bn.tonumber(lval) * 1.0, bn.tonumber(rval) * 1.0
       end
       reval, err = opvalfunc(lval, rval, retype)
       if reval then
@@ -1467,8 +1467,8 @@ local function make_float_binary_opfunc(optypefunc, opvalfunc)
     if retype then -- we have a common type
       local lval, rval, reval = lattr.value, rattr.value, nil
       if lval and rval then -- both are compile time variables
-        -- must convert both to a float before
-        lval, rval = bn.tonumber(lval), bn.tonumber(rval)
+        -- must convert both to a float before (bn.tonumber returns a Lua integer for integral values)
+        lval, rval = bn.tonumber(lval) * 1.0, bn.tonumber(rval) * 1.0
         reval = opvalfunc(lval, rval, retype)
       end
       return retype, reval
@@ -1496,12 +1496,9 @@ FloatType.binary_operators.idiv = make_float_binary_opfunc(float_arith_op, funct
 end)
 FloatType.binary_operators.tdiv = make_float_binary_opfunc(float_arith_op, function(a,b)
   local q = a / b
-  if q < 0 then
-    q = math.ceil(q)
-  else
-    q = math.floor(q)
-  end
-  return q
+  if q == 0 then return q end -- keeps the sign of zero
+  local t = math.floor(math.abs(q)) + 0.0 -- truncates, staying a float
+  return q < 0 and -t or t
 end)
 FloatType.binary_operators.mod = make_float_binary_opfunc(float_arith_op, function(a,b)
   return a % b
